@@ -1,4 +1,5 @@
 """C24 Index decode — one shared entry decoder for every thread limit (CG), stat field order agrees between sibling decoders and git (TAB)."""
+import re
 from props import _index_fields as ixf
 from gx.flow import Flow
 
@@ -14,6 +15,7 @@ EXPLANATION = ("(1) gix_index::decode: Entry values are constructed only in entr
 
 def run(db, chk):
     tree_ext_order_rule(db, chk)
+    varint_rule(db, chk)
     dec = [f for f in db.by_crate["gix_index"] if f.kind != "promoted"]
     # who constructs Entry / who calls load_one / who calls chunk
     builders = {f.name for f in dec if "::decode::" in f.name for bi, si, pl, rv, ln, mc in f.assigns() if rv[0] == "agg" and rv[1] == "adt" and rv[2] == "gix_index::Entry"}
@@ -102,3 +104,50 @@ def tree_ext_order_rule(db, chk):
                c.where(), key="tree-ext-order|%s" % c.name.split("::")[-1])
     if not ordering:
         chk.ob("tree-ext-no-order-requirement", "one_recursive (no ordering test outside the sort comparator)", True)
+
+
+def varint_rule(db, chk):
+    """index V4 prefix lengths and the untracked cache use git's OFFSET var-int: value = ((value + 1) << 7) | (byte & 0x7f) per continuation byte.
+    Every function of gix-index (and the shared decoders in gix_features::decode it delegates to) that has the shape of a var-int loop - a shift
+    by 7 together with a mask of 127 - must shift a value that was incremented by 1 first.  Values below 128 decode alike either way, so only the
+    shape of the arithmetic can tell.  gix_index::util::var_int must be such a function or delegate to one."""
+    from gx import tab
+    scope = [f for f in db.by_crate["gix_index"] if f.kind != "promoted"] + [f for f in db.by_crate["gix_features"] if f.kind != "promoted" and "::decode::" in f.name]
+    loops_ = []
+    for f in scope:
+        sig = tab.arith_signature(f, ("Shl", "BitAnd"))
+        if any(k[0] == "Shl" and k[1] == 7 for k in sig) and any(k[0] == "BitAnd" and k[1] == 127 for k in sig):
+            loops_.append(f)
+    chk.floor("var-int decoders (shift by 7, mask 127) in gix_index + gix_features::decode", len(loops_), 2)
+    good = set()
+    for f in loops_:
+        fl = Flow(f)
+        ok = True
+        n = 0
+        for bi, si, pl, rv, ln, mc in f.assigns():
+            if rv[0] == "bin" and rv[1] in ("Shl", "ShlUnchecked") and "p" not in rv[3] and rv[3].get("v") == 7 and "p" in rv[2]:
+                n += 1
+                # the shifted value: some definition on the way is `x + 1`
+                plus1 = False
+                seen, work = set(), [rv[2]["p"][0]]
+                while work:
+                    l = work.pop()
+                    if l in seen:
+                        continue
+                    seen.add(l)
+                    for b2, s2, pl2, rv2, ln2, mc2 in f.assigns():
+                        if pl2 and pl2[0] == l:
+                            if rv2[0] == "bin" and rv2[1] in ("Add", "AddWithOverflow", "AddUnchecked") and any("p" not in o and o.get("v") == 1 for o in (rv2[2], rv2[3])):
+                                plus1 = True
+                            for o in ([rv2[1]] if rv2[0] == "use" else [rv2[2]] if rv2[0] == "cast" else [rv2[2], rv2[3]] if rv2[0] == "bin" else []):
+                                if isinstance(o, dict) and "p" in o:
+                                    work.append(o["p"][0])
+                ok = ok and plus1
+        chk.ob("varint-is-offset-encoded", "%s (%d shift(s) by 7)" % (f.name.split("::")[-1], n), ok and n > 0,
+               "a var-int loop shifts the accumulated value by 7 without adding 1 first: values of 128 and above come out 128 (or more) too small - V4 paths with a long stripped prefix decode to a path git never stored",
+               "%s:%d" % (f.file, f.line), key="varint|%s" % f.name.split("::")[-1])
+        if ok and n:
+            good.add(f.name)
+    vi = db.one(r"^gix_index::util::var_int$")
+    delegates = [c for c in vi.calls() if any(c.is_("^" + re.escape(g) + "$") for g in good)]
+    chk.ob("varint-is-offset-encoded", "gix_index::util::var_int", vi.name in good or bool(delegates), "neither an offset var-int loop nor a call to one", "%s:%d" % (vi.file, vi.line), key="varint|util::var_int")
